@@ -407,8 +407,8 @@ def _int(n):
     return '(%d)' % n if n < 0 else '%d' % n
 
 
-def generate(src_path=SRC):
-    tree = ast.parse(open(src_path).read())
+def generate(src_path=None):
+    tree = ast.parse(open(src_path or SRC).read())
     prog, scales = stencil_program(_fn(tree, 'generate_derivative_operators'))
     f = admt_formulas(_fn(tree, 'calculate_admt'))
     rows = []
